@@ -136,7 +136,12 @@ def parse_dimacs(infile):
 
         # parse literals
         try:
-            for lv in [int(lit) for lit in line.split()]:
+            tokens = line.split()
+            if not all(tok.lstrip('+-').isascii() and tok.lstrip('+-').isdigit()
+                       and len(tok) - len(tok.lstrip('+-')) <= 1 for tok in tokens):
+                # int() would accept python numerals as '1_0' or non ascii digits
+                raise ValueError
+            for lv in [int(lit) for lit in tokens]:
                 if lv == 0:
                     clauses_count += 1
                     yield tuple(literal_buffer)
